@@ -319,6 +319,117 @@ def grids_rule(ctx, p):
     ctx.require_count(rule, "mesh classes", n, 2)
 
 
+def neighbors_rule(ctx, p, K):
+    """rectangular neighbour lists are exactly the 4-connectivity of the R x C grid: each helper covers one class of pixels, writes for pixel p = r*C + c exactly the in-frame members of
+    {p - C, p - 1, p + 1, p + C} and their count; the classes partition the grid; the Delaunay lists are scipy's vertex adjacency, row by row"""
+    rule = "C06.neighbors"
+    ctx.rule(rule, "rectangular_neighbors_from: every pixel of every class (4 corners, 4 edges, interior) gets exactly its in-frame 4-neighbours and their count, the classes partition the R x C grid; "
+                   "Mesh2DDelaunay.neighbors copies scipy's vertex adjacency row by row")
+    MU_ = "autoarray.inversion.pixelization.mesh.mesh_util"
+    R, C = S_("R"), S_("C")
+
+    def unint(pl):
+        return pl.subst(lambda at: at[2][0] if (at[0] == "f" and at[1] == "int" and len(at[2]) == 1) else None) if isinstance(pl, Poly) else pl
+    ONE_ = ONE
+    # class table: helper -> list of (row, col, loops [(lo, hi)], which neighbours exist: up, left, right, down)
+    v = S_("pix")
+    x, y = S_("x"), S_("y")
+    classes = {
+        "rectangular_corner_neighbors": [((ZERO, ZERO), [], (False, False, True, True)), ((ZERO, C - 1), [], (False, True, False, True)),
+                                         ((R - 1, ZERO), [], (True, False, True, False)), ((R - 1, C - 1), [], (True, True, False, False))],
+        "rectangular_top_edge_neighbors": [((ZERO, v), [(ONE_, C - 1)], (False, True, True, True))],
+        "rectangular_left_edge_neighbors": [((v, ZERO), [(ONE_, R - 1)], (True, False, True, True))],
+        "rectangular_right_edge_neighbors": [((v, C - 1), [(ONE_, R - 1)], (True, True, False, True))],
+        "rectangular_bottom_edge_neighbors": [((R - 1, C - 1 - v), [(ONE_, C - 1)], (True, True, True, False))],
+        "rectangular_central_neighbors": [((x, y), [(ONE_, R - 1), (ONE_, C - 1)], (True, True, True, True))],
+    }
+    total = ZERO
+    for name, want in classes.items():
+        f = p.func(f"{MU_}:{name}")
+        S = K.summarize(f, dict(neighbors=Ref("N"), neighbors_sizes=Ref("Z"), shape_native=(R, C)))
+        ns = [s for s in S.stores if s.arr == "N"]
+        zs = [s for s in S.stores if s.arr == "Z"]
+        ok = len(ns) == len(want) and len(zs) == len(want)
+        det = f"{len(ns)} neighbour stores, {len(zs)} size stores"
+        if ok:
+            remaining = list(want)
+            for sN in ns:
+                pidx = unint(sN.idx[0])
+                ren = {}
+                for l, nm in zip(sN.loops, ("pix",) if len(sN.loops) == 1 else ("x", "y")):
+                    ren[l.var] = nm
+                rn = lambda pl: unint(pl).subst(lambda at: S_(ren[at[1]]) if (at[0] == "s" and at[1] in ren) else None) if isinstance(pl, Poly) else pl
+                pidx = rn(pidx)
+                vals = tuple(rn(z) for z in sN.value) if isinstance(sN.value, tuple) else None
+                hit = None
+                for w in remaining:
+                    (r_, c_), loops, (up, left, right, down) = w
+                    if pidx != r_ * C + c_:
+                        continue
+                    lo_hi = [(rn(l.lo), rn(l.hi)) for l in sN.loops]
+                    exp = [pidx - C] * up + [pidx - 1] * left + [pidx + 1] * right + [pidx + C] * down
+                    sz = [z for z in zs if rn(z.idx[0]) == pidx]
+                    good = vals is not None and sorted(map(repr, vals)) == sorted(map(repr, exp)) and lo_hi == list(loops) and all(l.step == ONE for l in sN.loops) \
+                        and len(sN.idx) == 2 and repr(sN.idx[1]) == f"slice(0, {len(exp)}, None)" and len(sz) == 1 and value_poly(sz[0].value) == Poly.const(len(exp)) and not real_guards(sN.guards)
+                    if good:
+                        hit = w
+                    else:
+                        det = f"pixel {pidx!r}: neighbours {vals}, expected {exp} over {loops}"
+                    break
+                if hit is None:
+                    ok = False
+                    if "pixel" not in det:
+                        det = f"store at {pidx!r} does not address a pixel of this class"
+                    break
+                remaining.remove(hit)
+            ok = ok and not remaining
+        cnt = ZERO
+        for (_, loops, _) in want:
+            c1 = ONE
+            for lo, hi in loops:
+                c1 = c1 * (hi - lo)
+            cnt = cnt + c1
+        total = total + cnt
+        ctx.ob(rule, f"{name}", ok, where=f, node=(ns[0].node if ns else f.node), construct=det,
+               message="each pixel of this class (p = row * C + col) must list exactly its in-frame neighbours among p - C, p - 1, p + 1, p + C and store their number; "
+                       "a wrong or missing entry makes the adjacency asymmetric (a pixel lists a neighbour that does not list it back)")
+    ctx.ob(rule, "pixel classes partition the grid", total == R * C, where=p.func(f"{MU_}:rectangular_neighbors_from"), node=None, construct=f"classes cover {total!r} pixels",
+           message="corners + edges + interior must count R * C pixels")
+    # assembly: -1 table of width 4, zero sizes, all six helpers on the same arrays and shape, result returned
+    f = p.func(f"{MU_}:rectangular_neighbors_from")
+    calls = [c for c in f.calls() if norm_text(c.func) in classes]
+    kws = [wire.kwtext(c) for c in calls]
+    ok = sorted(norm_text(c.func) for c in calls) == sorted(classes) and all(k == {"neighbors": "neighbors", "neighbors_sizes": "neighbors_sizes", "shape_native": "shape_native"} for k in kws)
+    init = {norm_text(n.targets[0]): norm_text(n.value).replace(" ", "") for n in f.node.body if isinstance(n, ast.Assign) and isinstance(n.targets[0], ast.Name)}
+    ok = ok and init.get("neighbors") in ("-1*np.ones(shape=(pixels,4))", "np.ones(shape=(pixels,4))*-1", "-np.ones(shape=(pixels,4))") and init.get("neighbors_sizes") == "np.zeros(pixels)" \
+        and init.get("pixels") in ("int(shape_native[0]*shape_native[1])", "shape_native[0]*shape_native[1]")
+    rets = wire.returns_of(f)
+    ok = ok and len(rets) == 1 and norm_text(rets[0].value) in ("(neighbors, neighbors_sizes)", "neighbors, neighbors_sizes")
+    ctx.ob(rule, f.key, ok, where=f, node=f.node, construct=f"{len(calls)} helper calls; init {init}"[:300],
+           message="the table must start as -1 (width 4) with zero sizes and be filled by all six class helpers on the same arrays and shape")
+    m = p.func("autoarray.structures.mesh.rectangular_2d:Mesh2DRectangular.neighbors")
+    cs = wire.calls_to(p, m, f.key)
+    ok = len(cs) == 1 and wire.kwtext(cs[0]) == {"shape_native": "self.shape_native"}
+    ctx.ob(rule, m.key, ok, where=m, node=cs[0] if cs else m.node, construct=norm_text(cs[0]) if cs else "", message="the mesh's neighbours must be computed for the mesh's own shape")
+    # Delaunay: scipy's CSR vertex adjacency copied row by row
+    d = p.func("autoarray.structures.mesh.delaunay_2d:Mesh2DDelaunay.neighbors")
+    txt = {norm_text(n.targets[0]): norm_text(n.value) for n in d.body_nodes() if isinstance(n, ast.Assign)}
+    loops = [n for n in wire.main_line(d) if isinstance(n, ast.For)]
+    ok = txt.get("(indptr, indices)") == "self.delaunay.vertex_neighbor_vertices" and expr_poly_eq(d, "sizes", "indptr[1:] - indptr[:-1]") and len(loops) == 1 and norm_text(loops[0].iter) in ("range(self.parameters)", "range(len(sizes))")
+    if ok:
+        k = norm_text(loops[0].target)
+        body = [norm_text(b).replace(" ", "") for b in loops[0].body]
+        ok = body in ([f"neighbors[{k}][0:sizes[{k}]]=indices[indptr[{k}]:indptr[{k}+1]]"], [f"neighbors[{k},0:sizes[{k}]]=indices[indptr[{k}]:indptr[{k}+1]]"], [f"neighbors[{k}][0:sizes[{k}]]=indices[indptr[{k}]:indptr[1+{k}]]"])
+    ctx.ob(rule, d.key, ok, where=d, node=d.node, construct=str({k_: v_ for k_, v_ in txt.items() if k_ in ("(indptr, indices)", "sizes")}),
+           message="Delaunay neighbours must be scipy's vertex adjacency: row k = indices[indptr[k] : indptr[k + 1]], size k = indptr[k + 1] - indptr[k]")
+
+
+def expr_poly_eq(f, name, src):
+    from ..forms import expr_poly, src_poly
+    asg = [n for n in f.body_nodes() if isinstance(n, ast.Assign) and norm_text(n.targets[0]) == name]
+    return len(asg) == 1 and expr_poly(asg[0].value) == src_poly(src)
+
+
 def run(ctx):
     p = ctx.p
     K = KEval(p)
@@ -333,10 +444,19 @@ def run(ctx):
     rectangular_rule(ctx, p)
     wiring_rule(ctx, p)
     grids_rule(ctx, p)
+    neighbors_rule(ctx, p, K)
 
 
 _M = "autoarray/inversion/pixelization/mappers/mapper_util.py"
+_MU = "autoarray/inversion/pixelization/mesh/mesh_util.py"
 CONTROLS = [
+    Control("right-edge pixels list the pixel to their right (which is in the next row)", _MU, in_func("rectangular_right_edge_neighbors", "                pixel_index - 1,\n", "                pixel_index + 1,\n"), "C06.neighbors"),
+    Control("top-edge pixels lose their lower neighbour", _MU, in_func("rectangular_top_edge_neighbors", "[pixel_index - 1, pixel_index + 1, pixel_index + shape_native[1]]", "[pixel_index - 1, pixel_index + 1, pixel_index + shape_native[0]]"), "C06.neighbors"),
+    Control("interior loop runs into the last row", _MU, in_func("rectangular_central_neighbors", "for x in range(1, shape_native[0] - 1):", "for x in range(1, shape_native[0]):"), "C06.neighbors"),
+    Control("bottom-edge pixels report two neighbours", _MU, in_func("rectangular_bottom_edge_neighbors", "neighbors_sizes[pixel_index] = 3", "neighbors_sizes[pixel_index] = 2"), "C06.neighbors"),
+    Control("left edge never filled in", _MU, in_func("rectangular_neighbors_from", "    neighbors, neighbors_sizes = rectangular_left_edge_neighbors(\n        neighbors=neighbors, neighbors_sizes=neighbors_sizes, shape_native=shape_native\n    )\n", ""), "C06.neighbors"),
+    Control("Delaunay rows drop their last neighbour", "autoarray/structures/mesh/delaunay_2d.py", in_func("Mesh2DDelaunay.neighbors", "indices[indptr[k] : indptr[k + 1]]", "indices[indptr[k] : indptr[k + 1] - 1]"), "C06.neighbors"),
+    Control("twin: interior neighbours listed in another order", _MU, in_func("rectangular_central_neighbors", "                    pixel_index - shape_native[1],\n                    pixel_index - 1,\n", "                    pixel_index - 1,\n                    pixel_index - shape_native[1],\n"), None, twin=True),
     Control("rectangular mapper keeps the un-relocated data grid (seed C06/3)", "autoarray/inversion/pixelization/mesh/rectangular.py", in_func("Rectangular.mapper_grids_from", "            source_plane_data_grid=relocated_grid,\n            source_plane_mesh_grid=mesh_grid,", "            source_plane_data_grid=source_plane_data_grid,\n            source_plane_mesh_grid=mesh_grid,"), "C06.grids"),
     Control("triangulation mesh built from the un-relocated grid", "autoarray/inversion/pixelization/mesh/triangulation.py", in_func("Triangulation.mapper_grids_from", "        source_plane_data_grid = self.relocated_grid_from(", "        relocated = self.relocated_grid_from("), "C06.grids"),
     Control("dense form uses the sub-pixel's own fraction index", _M, in_func("mapping_matrix_from", "sub_fraction[slim_index] * pix_weight", "sub_fraction[sub_slim_index] * pix_weight"), "C06.dense"),
